@@ -130,3 +130,46 @@ def distinct(terms) -> list:
         if t not in out:
             out.append(t)
     return out
+
+
+def mask_positions(t: Term):
+    """(mask, length) when ``t`` spells `the positions where a 1-D mask holds`: np.flatnonzero(m), np.where(m)[0], np.nonzero(m)[0],
+    np.arange(K)[m] (length = K, else None); None otherwise."""
+    if is_call_to(t, "numpy.flatnonzero") and len(t[2]) == 1 and not t[3]:
+        return t[2][0], None
+    if t[0] == "index" and t[2] == ("const", 0) and is_call_to(t[1], "numpy.where", "numpy.nonzero") and len(t[1][2]) == 1 and not t[1][3]:
+        return t[1][2][0], None
+    if t[0] == "index" and is_call_to(t[1], "numpy.arange") and len(t[1][2]) == 1 and t[2][0] in ("cmp", "bin", "un", "bool"):
+        return t[2], t[1][2][0]
+    return None
+
+
+def yield_streams(ft: FunctionTerms) -> list[tuple[Term, Event]]:
+    """What a generator function yields, one entry per yield site, in one form: a plain `yield v` at the top level is the scalar v;
+    `yield from <comprehension>` and `for x in it: [if c:] yield v` are both the stream ('comp', 'gen', v, ((x, it, (c,)),)).
+    A yield under a while loop / try keeps its event value and is marked ('unknown', ...)."""
+    out = []
+    for y in ft.of_kind("yield"):
+        if y.data.get("is_from"):
+            out.append((y.value, y))
+            continue
+        gens = []
+        conds: list = []
+        okf = True
+        for fr in y.ctx:
+            if fr[0] == "for":
+                gens.append([fr[2], fr[3], []])
+            elif fr[0] == "if" and gens and not (len(fr) > 4 and fr[4] == "implied"):
+                gens[-1][2].append(fr[1] if fr[2] else ("un", "not", fr[1]))
+            elif fr[0] in ("if", "inline", "with"):
+                if fr[0] == "if" and not (len(fr) > 4 and fr[4] == "implied"):
+                    okf = False
+            else:
+                okf = False
+        if not okf:
+            out.append((("unknown", "yield under a construct that is not a plain for / if"), y))
+        elif gens:
+            out.append((("comp", "gen", y.value, tuple((g[0], g[1], tuple(g[2])) for g in gens)), y))
+        else:
+            out.append((y.value, y))
+    return out
